@@ -58,6 +58,41 @@ def S_(s):
     return {"t": "str", "s": s}
 
 
+def _T(s_):
+    return {"k": "text", "s": s_}
+
+
+def _pair(a, b, wrap=None):
+    kids = [gen.TAG(a, _T("first"), ws=True), gen.TAG(b, _T("second"), ws=True)]
+    if wrap:
+        kids = [{"k": "list", "t": wrap, "c": kids}]
+    return {"kids": [_T("lead")] + kids, "dicts": [], "kw": []}
+
+
+# children that are themselves structural elements, in both orders, directly and inside a container: no function re-arranges,
+# merges or drops children because of what they are
+_PAIRS = [("body", "head"), ("html", "body"), ("tbody", "thead"), ("tfoot", "tbody"), ("tr", "caption"), ("colgroup", "col"), ("li", "li"), ("optgroup", "option"),
+          ("dd", "dt"), ("img", "figcaption"), ("track", "source"), ("input", "legend"), ("p", "summary"), ("meta", "title"), ("link", "base"),
+          ("script", "style"), ("br", "hr"), ("svg", "g"), ("defs", "title"), ("desc", "metadata"), ("param", "embed")]
+STRUCTURE_PROBES = ([_pair(a, b) for a, b in _PAIRS] + [_pair(b, a) for a, b in _PAIRS]
+                    + [_pair(a, b, wrap) for (a, b), wrap in zip(_PAIRS[:8], ["list", "tuple", "taglist"] * 3)]
+                    + [{"kids": [gen.TAG("head", ws=True), gen.TAG("head", ws=True), gen.TAG("body", ws=True), gen.TAG("body", ws=True)], "dicts": [], "kw": []}])
+
+# attribute values pass through unchanged whatever the attribute's name means for the element: URLs, namespaces, numbers, empty values
+_ATTR_NAMES = ["src", "href", "xmlns", "action", "data", "poster", "srcset", "cite", "value", "content", "charset", "lang", "type", "rel", "media", "viewBox", "d", "points",
+               "transform", "fill", "alt", "name", "id", "class_", "style", "for_", "width", "height", "placeholder", "pattern", "accept", "method", "target", "download",
+               "xlink_href", "xmlns_xlink", "preserveAspectRatio", "role", "tabindex", "hidden", "checked", "selected", "disabled", "open", "async_", "defer", "http_equiv"]
+_ATTR_VALUES = [S_("a b.png"), S_("https://e.org/x y?q=1&r=2#f g"), S_("http://www.w3.org/2000/svg"), S_(" UPPER Case "), S_(""), S_("#frag"), S_("0 0 10 10"), S_("javascript:void(0)"),
+                S_("x.js"), S_("a,b 2x"), S_("%20%"), S_("utf-8"), {"t": "num", "v": 0}, {"t": "num", "v": 100}, {"t": "true"}, {"t": "false"}, {"t": "none"}, {"t": "html", "s": "a b&amp;c"}]
+ATTRIBUTE_PROBES = []
+for _i, _n in enumerate(_ATTR_NAMES):
+    for _j in range(3):
+        _v = _ATTR_VALUES[(_i * 3 + _j * 7) % len(_ATTR_VALUES)]
+        _raw = _n.rstrip("_").replace("_", "-") if _j == 1 else _n
+        ATTRIBUTE_PROBES.append({"kids": [_T("k")] if _j else [], "dicts": [[[_raw, _v]]] if _j == 1 else [], "kw": [[_n, _v]] if _j != 1 else []})
+ATTRIBUTE_PROBES += [{"kids": [], "dicts": [], "kw": [[_n, _ATTR_VALUES[(_i + 1) % 4]] for _i, _n in enumerate(_ATTR_NAMES[k_:k_ + 6])]} for k_ in range(0, len(_ATTR_NAMES), 6)]
+
+
 def rand_args(rng):
     kids = [rand_arg(rng, rng.choice([0, 1, 2])) if rng.random() < 0.7 else {"k": "text", "s": gen.text_of(rng)} for _ in range(rng.randint(0, 4))]
     dicts = [[[rng.choice(RAW_NAMES), rand_value(rng)] for _ in range(rng.randint(0, 3))] for _ in range(rng.randint(0, 2))]
@@ -163,18 +198,23 @@ def check_function(ctx, modname, name, f, inline, n_random):
                {"kids": [], "dicts": [], "kw": [["class_", S_("c")], ["href", S_("/x")], ["id", S_("i")], ["src", S_("s")], ["name", S_("n")], ["type", S_("t")], ["value", S_("v")]]},
                {"kids": [], "dicts": [], "kw": [["value", S_("v")], ["type", S_("t")], ["name", S_("n")], ["src", S_("s")], ["id", S_("i")], ["href", S_("/x")], ["class_", S_("c")],
                                                 ["alt", S_("a")], ["title", S_("t")], ["style", S_("k:v;")], ["width", {"t": "num", "v": 3}], ["height", {"t": "num", "v": 4}]]}]
-    for args in probes + [rand_args(rng) for _ in range(n_random)]:
-        w2 = dict(wit, args=args)
+    probes += STRUCTURE_PROBES + ATTRIBUTE_PROBES
+    n_fixed = len(probes)
+    for k_, args in enumerate(probes + [rand_args(rng) for _ in range(n_random)]):
+      # the whitespace flag left out, and given explicitly either way (every fixed probe all three ways)
+      for ws_mode in ((None, True, False) if k_ < n_fixed else (rng.choice([None, None, True, False]),)):
+        w2 = dict(wit, args=args, _add_ws=ws_mode)
+        ws_kw = {} if ws_mode is None else {"_add_ws": ws_mode}
         try:
             pos, kw = build_args(args)
-            want = ht.Tag(name, *pos, _add_ws=default, **kw)
+            want = ht.Tag(name, *pos, _add_ws=default if ws_mode is None else ws_mode, **kw)
             want_exc = None
         except Exception as e:
             want, want_exc = None, e
         pos2, kw2 = build_args(args)
         arg_fp = fp(pos2)
         try:
-            got = f(*pos2, **kw2)
+            got = f(*pos2, **ws_kw, **kw2)
             got_exc = None
         except Exception as e:
             got, got_exc = None, e
